@@ -8,7 +8,7 @@ CLAIMS = {
  "C02": ("field table: every getter of a valid view equals the RFC position (spec functions written from the RFCs); Parse's contract states PayloadID, offsets, addresses, ports and error-iff against the reference classifier spec_parse and is proved against the real body",
          "spec_parse / field table are the trusted reference; IPv6 trailing bytes are deliberately free (mayErr); Frame.Payload extent beyond the start offset not demanded"),
  "C03": ("every encoder (Ethernet, IPv4, IPv6, UDP, ARP, ICMP echo) has a contract stating the wire layout of the bytes it writes, its exact modifies set (frame obligations per write) and the ErrPayloadTooBig clause; round-trip lemmas decode the encoder output through the library's getters and through the C02 field table; NS/NA marshal and DNS query round trips are lemmas over the real code",
-         "DHCPv4 option-map encoding (Go map iteration) is not decided; preconditions state that source slices do not overlap the destination buffer; composition with Parse: see evidence"),
+         "DHCPv4: AppendOptions/EncodeDHCP4 are proved total, in-bounds and header-correct for every buffer size and every option map of at most 20 values of at most 32 bytes (map iteration order-independent argument with an iteration counter); the byte-for-byte content of the option area (it depends on Go's map iteration order) is not compared with a reference; preconditions state that source slices do not overlap the destination buffer; composition with Parse: see evidence"),
  "C07": ("send paths under contract, each proved against the real body to hand exactly one complete, length-consistent frame to the connection with Ethernet source = host NIC MAC and the requested addresses/fields: ARP reply/request/announce, the purge probe (Session.arpRequest), ICMPv4 echo (IPv4 header checksum and ICMP checksum clauses over the C15 spec), ICMPv6 echo, NDP NS/NA and RS (hop limit 255 for link-local destinations; RS to ff02::2 behind 33:33:00:00:00:02, type 133 with the source link-layer option: defect repaired, the ICMPv6 header was missing), the NDP marshal functions, the DHCPv4 encoder, the IPv6 multicast constants; the ARP spoof loop's frames through a per-send predicate (vWireEach)",
          "NOT decided: the content of router advertisements (same repaired header defect, but the option list with DNSSL/RDNSS/prefix encoders is not under contract), sendDHCP4Packet and the dns_naming senders (mDNS/LLMNR/NBNS/SSDP), the ICMPv6 checksum value; histories: each send function is decided for all arguments, not the handlers' emission histories"),
  "C08": ("no panic and a termination measure for every loop: Parse (through C01), the lemmas stating what Parse establishes per payload class, and on exactly those predicates arp_spoofer.ProcessPacket, icmp_spoofer Handler4/Handler6.ProcessPacket (incl. NDP option parsing and router table update); payload-level decoders decodeName (recursion measure), DecodeQuestion, decodeRRs, DecodeAnswers, newParseOptions, hop-by-hop headers, DHCP4.ParseOptions, LLDP TLVs for arbitrary byte strings",
